@@ -357,6 +357,12 @@ func (c *handlerCtx) handle() {
 	switch c.input.Mtype() {
 	case TypeReply:
 		// handles call reply
+		if c.callCmd == nil && !c.stat.OK() {
+			// the reply could not be read up to the point where it is bound to its call (a transfer filter
+			// refused its payload, ...): bind it now, so that the call completes with that error instead of
+			// staying pending on a connection that stays up
+			c.binding(c.input)
+		}
 		c.handleReply()
 		return
 
